@@ -6,29 +6,22 @@ serializer) may read ``call.args[k]`` only on paths where parameter k of the met
 to have been passed positionally: the parameter has no default (or the path holds a length / truth guard on
 the argument tuple) and the path has excluded the keyword form (``'<param>' in call.kwargs`` tested before).
 
-The methods a path can be about are taken from the tests on ``call.name`` that enclose the use (==, in a
-literal tuple, substring) -- for a helper taking a ``_Call`` parameter, from the tests enclosing its call
-sites.  A path whose method set cannot be determined is counted as undetermined and not reported.
+The rule works on the symbolic normal form (pstatic/sym.py), so local aliases (``args = list(call.args)``,
+``calls = seq._calls[1:] + ...``), conditional expressions and private helpers do not matter.  The methods a
+path can be about are taken from the tests on ``call.name`` in the path condition (==, membership in a literal
+tuple, substring) -- for a helper taking a ``_Call`` parameter, from the path conditions of its call sites.
+A path whose method set cannot be determined is counted as undetermined and not reported.
 """
 from __future__ import annotations
 
 import ast
-from typing import Iterable, Optional
+from typing import Optional
 
-from .absval import abstractor
-from .engine import SEQ, Engine
-from .model import FunctionInfo, dotted, norm
+from . import sym
+from .engine import Engine
+from .model import FunctionInfo, norm
 from .report import Report
-
-
-def _own_nodes(f: FunctionInfo):
-    stack = list(ast.iter_child_nodes(f.node))
-    while stack:
-        n = stack.pop()
-        if isinstance(n, (ast.FunctionDef, ast.AsyncFunctionDef, ast.ClassDef)):
-            continue
-        yield n
-        stack.extend(ast.iter_child_nodes(n))
+from .sym import Term
 
 
 def _has_default(m: FunctionInfo, pname: str) -> bool:
@@ -47,172 +40,236 @@ def _positional_params(m: FunctionInfo) -> list[str]:
     return [x.arg for x in a.posonlyargs + a.args][1:]
 
 
-class _Facts:
-    """What one conjunction of path conditions says about the recorded call held in variable ``cv``."""
+def _unobj(t: Term) -> Term:
+    while t[0] == "obj":
+        t = t[2]
+    return t
 
+
+def _call_var_of(t: Term) -> Optional[Term]:
+    """t denotes the positional-argument tuple of a recorded call: returns the call term."""
+    u = _unobj(t)
+    if u[0] == "attr" and u[2] == "args":
+        return u[1]
+    if u[0] == "call" and u[1] in (("name", "list"), ("name", "tuple")) and len(u[2]) == 1 and not u[3]:
+        return _call_var_of(u[2][0])
+    if u[0] == "list" and len(u) == 2 and u[1][0] == "star":
+        return _call_var_of(u[1][1])
+    return None
+
+
+def _kwargs_of(t: Term) -> Optional[Term]:
+    u = _unobj(t)
+    if u[0] == "attr" and u[2] == "kwargs":
+        return u[1]
+    if u[0] == "call" and u[1][0] == "attr" and u[1][2] == "copy" and not u[2]:
+        return _kwargs_of(u[1][1])
+    if u[0] == "call" and u[1] == ("name", "dict") and len(u[2]) == 1:
+        return _kwargs_of(u[2][0])
+    return None
+
+
+def _is_recorded_call(cv: Term, call_params: set) -> bool:
+    """cv is an element of a collection of recorded calls, or a parameter annotated ``_Call``."""
+    if cv[0] == "name":
+        return cv[1] in call_params
+    if cv[0] == "elem":
+        return any(x[0] == "attr" and x[2] in ("_calls", "_to_build_calls") for x in sym.subterms(cv[1]))
+    return False
+
+
+class _Facts:
     def __init__(self) -> None:
-        self.names: Optional[set] = None  # candidate method names (None = unconstrained)
+        self.names: Optional[set] = None
         self.not_names: set = set()
         self.kw_in: set = set()
         self.kw_out: set = set()
-        self.len_guard: Optional[int] = None  # args known to hold more than this many entries - 1
+        self.len_guard: int = 0  # the argument tuple is known to hold at least this many entries
 
-    def restrict(self, s: Iterable[str]) -> None:
+    def restrict(self, s) -> None:
         s = set(s)
         self.names = s if self.names is None else (self.names & s)
 
 
-def _facts(conj, cv: str, a_alias: set, k_alias: set, all_names: set) -> _Facts:
+def _facts(lits, cv: Term, all_names: set) -> _Facts:
     fx = _Facts()
-    for l in conj:
-        txt = l.text
-        if l.atom is None:
-            if l.truth is not None and l.positive and txt in a_alias:
-                fx.len_guard = max(fx.len_guard or 0, 1)
+    name_t = ("attr", cv, "name")
+    for x in lits:
+        if _call_var_of(x) == cv:
+            fx.len_guard = max(fx.len_guard, 1)  # truth test of the tuple
             continue
-        try:
-            c = ast.parse(txt, mode="eval").body
-        except SyntaxError:
+        if x[0] == "or":
+            # name == A or name == B ...: one of these methods
+            alts = set()
+            for d in x[1:]:
+                if d[0] == "cmp" and d[1] == "Eq" and name_t in (d[2], d[3]) and (d[2] if d[3] == name_t else d[3])[0] == "const":
+                    alts.add((d[2] if d[3] == name_t else d[3])[1])
+                else:
+                    alts = None
+                    break
+            if alts:
+                fx.restrict(alts)
             continue
-        if not (isinstance(c, ast.Compare) and len(c.ops) == 1):
+        if x[0] != "cmp":
             continue
-        lt, rt, rel = c.left, c.comparators[0], l.atom.rel
-        ltx, rtx = norm(lt), norm(rt)
-        if ltx == f"{cv}.name":
-            if isinstance(rt, ast.Constant) and isinstance(rt.value, str):
-                if rel == "Eq":
-                    fx.restrict({rt.value})
-                elif rel == "NotEq":
-                    fx.not_names.add(rt.value)
-            elif isinstance(rt, (ast.Tuple, ast.List, ast.Set)) and all(isinstance(e, ast.Constant) for e in rt.elts):
-                vals = {e.value for e in rt.elts}
-                if rel == "In":
-                    fx.restrict(vals)
-                elif rel == "NotIn":
-                    fx.not_names |= vals
-        elif rtx == f"{cv}.name" and isinstance(lt, ast.Constant) and isinstance(lt.value, str):
-            sub = {n for n in all_names if lt.value in n}
-            if rel == "In":
-                fx.restrict(sub)
-            elif rel == "NotIn":
-                fx.not_names |= sub
-        elif isinstance(lt, ast.Constant) and isinstance(lt.value, str) and rtx in k_alias:
-            if rel == "In":
-                fx.kw_in.add(lt.value)
-            elif rel == "NotIn":
-                fx.kw_out.add(lt.value)
-        elif isinstance(lt, ast.Call) and norm(lt.func) == "len" and lt.args and norm(lt.args[0]) in a_alias and isinstance(rt, ast.Constant) and isinstance(rt.value, int):
-            n = rt.value
-            if rel == "Gt":
-                fx.len_guard = max(fx.len_guard or 0, n + 1)
-            elif rel in ("GtE", "Eq"):
-                fx.len_guard = max(fx.len_guard or 0, n)
+        op, a, b = x[1], x[2], x[3]
+        for l, r in ((a, b), (b, a)):
+            if l == name_t and r[0] == "const" and isinstance(r[1], str) and op in ("Eq", "NotEq"):
+                if op == "Eq":
+                    fx.restrict({r[1]})
+                else:
+                    fx.not_names.add(r[1])
+        if a == name_t and b[0] in ("tuple", "list", "set") and all(e[0] == "const" for e in b[1:]) and op in ("In", "NotIn"):
+            vals = {e[1] for e in b[1:]}
+            if op == "In":
+                fx.restrict(vals)
+            else:
+                fx.not_names |= vals
+        if b == name_t and a[0] == "const" and isinstance(a[1], str) and op in ("In", "NotIn"):
+            subn = {n for n in all_names if a[1] in n}
+            if op == "In":
+                fx.restrict(subn)
+            else:
+                fx.not_names |= subn
+        if a[0] == "const" and isinstance(a[1], str) and _kwargs_of(b) == cv and op in ("In", "NotIn"):
+            (fx.kw_in if op == "In" else fx.kw_out).add(a[1])
+        # len(args) compared with a constant
+        for l, r, o in ((a, b, op), (b, a, {"Lt": "Gt", "LtE": "GtE"}.get(op, op))):
+            if l[0] == "call" and l[1] == ("name", "len") and len(l[2]) == 1 and _call_var_of(l[2][0]) == cv and r[0] == "const" and isinstance(r[1], int):
+                # canonical comparisons are Lt / LtE (mirrored): const < len  /  const <= len
+                if o == "Gt":  # len > const
+                    fx.len_guard = max(fx.len_guard, r[1] + 1)
+                elif o in ("GtE", "Eq"):
+                    fx.len_guard = max(fx.len_guard, r[1])
     return fx
+
+
+def _uses(t: Term, conds: tuple, out: list) -> None:
+    """Collect (k, call var, local conditions, the indexing term) for every constant index into a recorded call's args."""
+    if not isinstance(t, tuple) or not t:
+        return
+    if t[0] == "ifexp":
+        _uses(t[1], conds, out)
+        _uses(t[2], conds + sym.conj_of(t[1]), out)
+        _uses(t[3], conds + sym.conj_of(sym.mk_not(t[1])), out)
+        return
+    if t[0] == "and":
+        for i, x in enumerate(t[1:]):
+            others = tuple(y for j, y in enumerate(t[1:]) if j != i and _count_uses(y) == 0)
+            _uses(x, conds + others, out)
+        return
+    if t[0] == "idx" and t[2][0] == "const" and isinstance(t[2][1], int) and not isinstance(t[2][1], bool) and t[2][1] >= 0:
+        cv = _call_var_of(t[1])
+        if cv is not None:
+            out.append((t[2][1], cv, conds, t))
+    if t[0] == "call" and t[1][0] == "attr" and t[1][2] == "pop" and len(t[2]) == 1 and t[2][0][0] == "const" and isinstance(t[2][0][1], int) and t[2][0][1] >= 0:
+        cv = _call_var_of(t[1][1])
+        if cv is not None:
+            out.append((t[2][0][1], cv, conds, t))
+    for x in t:
+        if isinstance(x, tuple):
+            _uses(x, conds, out)
+
+
+def _count_uses(t: Term) -> int:
+    o: list = []
+    _uses(t, (), o)
+    return len(o)
 
 
 def check(E: Engine, rep: Report, scopes: list[FunctionInfo], rule: str = "ARGS") -> dict:
     rec = E.recordable()
     all_names = set(rec)
     n_sites = n_undet = 0
+    seen_keys: set = set()
     for g in scopes:
-        ab = None
-        call_vars: list[tuple[str, ast.AST, Optional[set]]] = []  # (name, region, caller-derived names)
-        for n in _own_nodes(g):
-            if isinstance(n, ast.For) and isinstance(n.target, ast.Name) and "_calls" in norm(n.iter):
-                call_vars.append((n.target.id, n, None))
-            elif isinstance(n, (ast.ListComp, ast.SetComp, ast.GeneratorExp, ast.DictComp)):
-                for gen in n.generators:
-                    if isinstance(gen.target, ast.Name) and "_calls" in norm(gen.iter):
-                        call_vars.append((gen.target.id, n, None))
         a = g.node.args
-        for p in a.posonlyargs + a.args + a.kwonlyargs:
-            if p.annotation is not None and norm(p.annotation).strip("'\"").split(".")[-1] == "_Call":
-                names: Optional[set] = set()
-                for caller, ev in E.callers_of(g):
-                    cab = abstractor(E.flow(caller))
-                    # the argument expression bound to p at this site
-                    call = ev.node
+        call_params = {p.arg for p in a.posonlyargs + a.args + a.kwonlyargs if p.annotation is not None and norm(p.annotation).strip("'\"").split(".")[-1] == "_Call"}
+        src = norm(g.node)
+        if not call_params and "_calls" not in src:
+            continue
+        Sg = sym.sym_of(E.P, g, True)
+        # names a _Call parameter can carry: from the path conditions of the call sites
+        caller_names: dict[str, Optional[set]] = {}
+        for p in call_params:
+            names: Optional[set] = set()
+            params = [x.arg for x in a.posonlyargs + a.args]
+            if g.cls is not None and params and params[0] in ("self", "cls"):
+                params = params[1:]
+            sites = E.callers_of(g)
+            if not sites:
+                names = None
+            for caller, _ev in sites:
+                Sc = sym.sym_of(E.P, caller, False)
+                for l in Sc.calls(g.name):
                     argx = None
-                    if isinstance(call, ast.Call):
-                        params = [x.arg for x in a.posonlyargs + a.args]
-                        if g.cls is not None and params and params[0] in ("self", "cls"):
-                            params = params[1:]
-                        if p.arg in params and params.index(p.arg) < len(call.args):
-                            argx = call.args[params.index(p.arg)]
-                        for kw in call.keywords:
-                            if kw.arg == p.arg:
-                                argx = kw.value
-                    if not isinstance(argx, ast.Name):
+                    if p in params and params.index(p) < len(l.value[2]):
+                        argx = l.value[2][params.index(p)]
+                    for k, v in l.value[3]:
+                        if k == p:
+                            argx = v
+                    if argx is None:
                         names = None
-                        break
-                    site_names: set = set()
-                    for conj in cab.enclosing_conditions(call):
-                        fx = _facts(conj, argx.id, set(), set(), all_names)
-                        if fx.names is None:
-                            site_names = None  # type: ignore[assignment]
-                            break
-                        site_names |= fx.names - fx.not_names
-                    if site_names is None:
+                        continue
+                    fx = _facts(sym.conj_of(l.cond), argx, all_names)
+                    if fx.names is None or names is None:
                         names = None
-                        break
-                    names |= site_names
-                call_vars.append((p.arg, g.node, names))
-        for cv, region, caller_names in call_vars:
-            a_alias, k_alias = {f"{cv}.args"}, {f"{cv}.kwargs"}
-            for n in ast.walk(region):
-                if isinstance(n, ast.Assign) and len(n.targets) == 1 and isinstance(n.targets[0], ast.Name):
-                    v = norm(n.value)
-                    if v in (f"list({cv}.args)", f"{cv}.args", f"[*{cv}.args]"):
-                        a_alias.add(n.targets[0].id)
-                    if v in (f"{cv}.kwargs.copy()", f"{cv}.kwargs", f"dict({cv}.kwargs)", f"{{**{cv}.kwargs}}"):
-                        k_alias.add(n.targets[0].id)
-            for n in ast.walk(region):
-                if isinstance(n, ast.Subscript) and norm(n.value) in a_alias and isinstance(n.slice, ast.Constant) and isinstance(n.slice.value, int) and n.slice.value >= 0:
-                    k = n.slice.value
-                elif isinstance(n, ast.Call) and isinstance(n.func, ast.Attribute) and n.func.attr == "pop" and norm(n.func.value) in a_alias and len(n.args) == 1 and isinstance(n.args[0], ast.Constant) and isinstance(n.args[0].value, int) and n.args[0].value >= 0:
-                    k = n.args[0].value
-                else:
+                    else:
+                        names |= fx.names - fx.not_names
+            caller_names[p] = names
+        for l in Sg.log:
+            found: list = []
+            for t in (l.target, l.value):
+                if t is not None:
+                    _uses(t, (), found)
+            for k, cv, local, term in found:
+                if not _is_recorded_call(cv, call_params):
                     continue
-                ab = ab or abstractor(E.flow(g))
+                lits = sym.conj_of(l.cond) + tuple(local)
+                fx = _facts(lits, cv, all_names)
+                who = "/".join(sorted((fx.names or set()) - fx.not_names)) or ("?" if cv[0] != "name" else "/".join(sorted(caller_names.get(cv[1]) or [])) or "?")
+                key = f"{g.short}|args[{k}]|{who}|positional-argument-present"
+                sig = (key, lits)
+                if sig in seen_keys:
+                    continue
+                seen_keys.add(sig)
                 n_sites += 1
                 problems: list[str] = []
                 undet = False
-                for conj in ab.enclosing_conditions(n):
-                    fx = _facts(conj, cv, a_alias, k_alias, all_names)
-                    if fx.len_guard is not None and fx.len_guard > k:
-                        continue
+                if fx.len_guard > k:
+                    cand: Optional[set] = set()
+                else:
                     cand = fx.names
-                    if cand is None:
-                        cand = caller_names
+                    if cand is None and cv[0] == "name":
+                        cand = caller_names.get(cv[1])
                     if cand is None:
                         undet = True
+                        cand = set()
+                for mname in sorted(cand - fx.not_names):
+                    m = rec.get(mname)
+                    if m is None:
                         continue
-                    for mname in sorted(cand - fx.not_names):
-                        m = rec.get(mname)
-                        if m is None:
-                            continue
-                        params = _positional_params(m)
-                        allp = params + [x.arg for x in m.node.args.kwonlyargs]
-                        if any(q not in allp for q in fx.kw_in) and m.node.args.kwarg is None:
-                            continue  # this method has no such keyword: path infeasible for it
-                        if k >= len(params):
-                            if m.node.args.vararg is None:
-                                problems.append(f"`{mname}` has only {len(params)} positional parameter(s)")
-                            else:
-                                problems.append(f"`{mname}`: argument {k} belongs to *{m.node.args.vararg.arg}, which may be empty")
-                            continue
-                        pk = params[k]
-                        if pk in fx.kw_in:
-                            problems.append(f"`{mname}`: on this path `{pk}` was passed by keyword, so the positional tuple is shorter")
-                        elif _has_default(m, pk):
-                            problems.append(f"`{mname}({', '.join(params)})`: parameter `{pk}` has a default, so a recorded call may hold fewer than {k + 1} positional argument(s)")
-                        elif pk not in fx.kw_out:
-                            problems.append(f"`{mname}({', '.join(params)})`: `{pk}` may have been passed by keyword (the path does not exclude `'{pk}' in {sorted(k_alias)[0]}`)")
+                    params = _positional_params(m)
+                    allp = params + [x.arg for x in m.node.args.kwonlyargs]
+                    if any(q not in allp for q in fx.kw_in) and m.node.args.kwarg is None:
+                        continue  # this method has no such keyword: path infeasible for it
+                    if k >= len(params):
+                        if m.node.args.vararg is None:
+                            problems.append(f"`{mname}` has only {len(params)} positional parameter(s)")
+                        else:
+                            problems.append(f"`{mname}`: argument {k} belongs to *{m.node.args.vararg.arg}, which may be empty")
+                        continue
+                    pk = params[k]
+                    if pk in fx.kw_in:
+                        problems.append(f"`{mname}`: on this path `{pk}` was passed by keyword, so the positional tuple is shorter")
+                    elif _has_default(m, pk):
+                        problems.append(f"`{mname}({', '.join(params)})`: parameter `{pk}` has a default, so a recorded call may hold fewer than {k + 1} positional argument(s)")
+                    elif pk not in fx.kw_out:
+                        problems.append(f"`{mname}({', '.join(params)})`: `{pk}` may have been passed by keyword (the path does not exclude `'{pk}' in <call>.kwargs`)")
                 if undet and not problems:
                     n_undet += 1
-                key = f"{g.short}|{norm(n)}|positional-argument-present"
-                rep.check(not problems, rule, key, f"`{norm(n)}` is read only where argument {k} of the recorded call is positional and mandatory" + (" (method set undetermined on some path: not decided there)" if undet else ""),
-                          f"{g.short}: `{norm(n)}` indexes the positional arguments of a recorded call, but {problems[0] if problems else ''} -- IndexError (or the wrong argument) for a call the user wrote validly", E.where(g, n))
+                rep.check(not problems, rule, key, f"`{sym.show(term)[:60]}` is read only where argument {k} of the recorded call is positional and mandatory" + (" (method set undetermined on this path: not decided there)" if undet else ""),
+                          f"{g.short}: `{sym.show(term)[:80]}` indexes the positional arguments of a recorded call, but {problems[0] if problems else ''} -- IndexError (or the wrong argument) for a call the user wrote validly", E.where(g, l.node))
     return {"positional_index_sites": n_sites, "undetermined": n_undet}
 
 
